@@ -241,7 +241,7 @@ impl ToZinc for Uri {
             }
             match c {
                 '`' => writer.write_all(br"\`")?,
-                '\\' => writer.write_all(br"\\")?,
+                // A backslash is part of an escape sequence the reader keeps as is (`\:`, `\/`, `\\` ...), don't double it
                 '\x20'..='\x7e' => writer.write_all(&[c as u8])?,
                 // Non ASCII chars are written as is, the `\uXXXX` escape can't express chars above U+FFFF
                 _ => writer.write_all(c.encode_utf8(&mut buf).as_bytes())?,
